@@ -508,6 +508,184 @@ async fn run_case(v: Value, scratch: &PathBuf) -> Value {
             json!({"id": id, "op": op, "set_panicked": set.is_none(), "panicked": done.is_none(), "files": files,
                    "set_panics": set_panics, "panics": take_panics()})
         }
+        "live" => {
+            // listener liveness: caller A's recorded destination drops SYNs (listening socket whose
+            // accept queue is full), caller B must be answered while A's host connect is still pending
+            use gpa::redirector::verif_hooks as hooks;
+            let bound_ms = v.get("bound_ms").and_then(|x| x.as_u64()).unwrap_or(30000);
+            // 1. the black hole
+            let sock = tokio::net::TcpSocket::new_v4().unwrap();
+            sock.bind("127.0.0.1:0".parse().unwrap()).unwrap();
+            let hole = sock.listen(0).unwrap();
+            let hole_port = hole.local_addr().unwrap().port();
+            let mut fillers = Vec::new();
+            let mut full = false;
+            for _ in 0..16 {
+                match tokio::time::timeout(Duration::from_millis(700), tokio::net::TcpStream::connect(("127.0.0.1", hole_port))).await {
+                    Ok(Ok(c)) => fillers.push(c),
+                    Ok(Err(_)) => {}
+                    Err(_) => {
+                        full = true;
+                        break;
+                    }
+                }
+            }
+            // 2. a normal host for caller B
+            let ok_reply = Reply { raw: b"HTTP/1.1 200 OK\r\nContent-Length: 2\r\n\r\nok".to_vec(), pieces: vec![], pause_ms: 0, close: false };
+            let mock = start_mock(vec![], Some(ok_reply)).await;
+            // 3. the real listener
+            let shared = gpa::shared_state::SharedState::start_all();
+            let mut proxy_port = 0u16;
+            let mut server_task = None;
+            for _ in 0..30 {
+                let l = std::net::TcpListener::bind("127.0.0.1:0").unwrap();
+                let p = l.local_addr().unwrap().port();
+                drop(l);
+                let server = gpa::proxy::proxy_server::ProxyServer::new(p, &shared);
+                let t = tokio::spawn(async move { server.start().await });
+                let status = shared.get_agent_status_shared_state();
+                let mut up = false;
+                for _ in 0..4000 {
+                    if status.get_module_status(AgentStatusModule::ProxyServer).await.status == proxy_agent_shared::proxy_agent_aggregate_status::ModuleState::RUNNING {
+                        up = true;
+                        break;
+                    }
+                    if t.is_finished() {
+                        break;
+                    }
+                    tokio::time::sleep(Duration::from_millis(2)).await;
+                }
+                if up {
+                    proxy_port = p;
+                    server_task = Some(t);
+                    break;
+                }
+                t.abort();
+            }
+            hooks::enable();
+            let lo = u32::from_le_bytes([127, 0, 0, 1]);
+            let me = std::process::id();
+            async fn client(proxy_port: u16, dest: (u32, u16), me: u32) -> (tokio::net::TcpStream, u16) {
+                let sock = tokio::net::TcpSocket::new_v4().unwrap();
+                sock.bind("127.0.0.1:0".parse().unwrap()).unwrap();
+                let lp = sock.local_addr().unwrap().port();
+                gpa::redirector::verif_hooks::insert(lp, (0, me, 1, dest.0, dest.1.to_be()));
+                let mut c = sock.connect(format!("127.0.0.1:{}", proxy_port).parse().unwrap()).await.unwrap();
+                let _ = c.write_all(b"GET /metadata/instance?api-version=1 HTTP/1.1\r\nHost: x\r\n\r\n").await;
+                (c, lp)
+            }
+            async fn first_bytes(c: &mut tokio::net::TcpStream, ms: u64) -> Option<String> {
+                let mut buf = [0u8; 64];
+                match tokio::time::timeout(Duration::from_millis(ms), c.read(&mut buf)).await {
+                    Ok(Ok(n)) if n > 0 => Some(String::from_utf8_lossy(&buf[..n.min(15)]).to_string()),
+                    _ => None,
+                }
+            }
+            let (mut a, _) = client(proxy_port, (lo, hole_port), me).await;
+            tokio::time::sleep(Duration::from_millis(300)).await;
+            let t0 = std::time::Instant::now();
+            let (mut b, _) = client(proxy_port, (lo, mock.port), me).await;
+            let b_answer = first_bytes(&mut b, bound_ms).await;
+            let b_ms = t0.elapsed().as_millis() as u64;
+            // is A still pending (no byte yet)?  -> its host connect is still in SYN retries
+            let a_answer = first_bytes(&mut a, 50).await;
+            // a third caller on a fresh connection, also while A is pending
+            let (mut c3, _) = client(proxy_port, (lo, mock.port), me).await;
+            let c_answer = first_bytes(&mut c3, bound_ms).await;
+            shared.cancel_cancellation_token();
+            if let Some(t) = server_task {
+                t.abort();
+            }
+            mock.handle.abort();
+            drop(fillers);
+            json!({"id": id, "op": op, "blackhole_full": full, "listening": proxy_port != 0, "b_answer": b_answer, "b_ms": b_ms,
+                   "a_pending": a_answer.is_none(), "a_answer": a_answer, "c_answer": c_answer, "panics": take_panics()})
+        }
+        "telrun" => {
+            // the real telemetry reader over event files produced by the real event logger from
+            // escape-dense messages cut at the logger's own MAX_MESSAGE_LENGTH; on a current-thread
+            // runtime a task that spins without yielding freezes this very future: the watchdog
+            // THREAD then reports and ends the process
+            let bound_ms = v.get("bound_ms").and_then(|x| x.as_u64()).unwrap_or(60000);
+            let done = Arc::new(std::sync::atomic::AtomicBool::new(false));
+            let (d2, idc) = (done.clone(), id.clone());
+            std::thread::spawn(move || {
+                let t0 = std::time::Instant::now();
+                while t0.elapsed().as_millis() < bound_ms as u128 {
+                    std::thread::sleep(Duration::from_millis(50));
+                    if d2.load(Ordering::SeqCst) {
+                        return;
+                    }
+                }
+                emit(json!({"id": idc, "op": "telrun", "hung": true, "bound_ms": bound_ms, "panics": take_panics()}));
+                std::process::exit(0);
+            });
+            let maxlen = event_logger::MAX_MESSAGE_LENGTH;
+            let mult = v.get("mult").and_then(|x| x.as_u64()).unwrap_or(4) as usize;
+            let mut sent = 0usize;
+            for (k, unit) in v.get("units").and_then(|x| x.as_array()).cloned().unwrap_or_default().iter().enumerate() {
+                let unit = unit.as_str().unwrap_or("'").to_string();
+                let msg = format!("{{\"url\":\"/{}\"}}", unit.repeat(maxlen * mult / unit.len().max(1) + 1));
+                let tag = format!("c13-tel{}", k);
+                if std::panic::catch_unwind(move || event_logger::write_event(LoggerLevel::Info, msg, "telrun", &tag, "c13_no_such_logger")).is_ok() {
+                    sent += 1;
+                }
+                if k % 3 == 2 {
+                    // several files: wait for the logger loop to flush
+                    tokio::time::sleep(Duration::from_millis(60)).await;
+                }
+            }
+            let evdir = scratch.join("events");
+            let evs = sync_events(&evdir, sent).await;
+            let longest = evs.iter().map(|(_, m)| m.len()).max().unwrap_or(0);
+            let files_before = std::fs::read_dir(&evdir).map(|d| d.count()).unwrap_or(0);
+            let ok_reply = Reply { raw: b"HTTP/1.1 200 OK\r\nContent-Length: 0\r\n\r\n".to_vec(), pieces: vec![], pause_ms: 0, close: false };
+            let mock = start_mock(vec![], Some(ok_reply)).await;
+            let shared = gpa::shared_state::SharedState::start_all();
+            let tel = shared.get_telemetry_shared_state();
+            let n = "c13".to_string();
+            let _ = tel
+                .set_vm_meta_data(Some(gpa::telemetry::event_reader::VmMetaData {
+                    container_id: n.clone(), tenant_name: n.clone(), role_name: n.clone(), role_instance_name: n.clone(),
+                    subscription_id: n.clone(), resource_group_name: n.clone(), vm_id: n.clone(), image_origin: 3,
+                }))
+                .await;
+            let reader = gpa::telemetry::event_reader::EventReader::new(
+                evdir.clone(), false, shared.get_cancellation_token(), shared.get_key_keeper_shared_state(), tel.clone(),
+                shared.get_agent_status_shared_state(),
+            );
+            let port = mock.port;
+            let task = tokio::spawn(async move { reader.start(Some(Duration::from_millis(100)), Some("127.0.0.1"), Some(port)).await });
+            // heartbeat: another task of the same runtime must keep running while the reader works
+            let beats = Arc::new(AtomicUsize::new(0));
+            let b2 = beats.clone();
+            let hb = tokio::spawn(async move {
+                loop {
+                    b2.fetch_add(1, Ordering::SeqCst);
+                    tokio::time::sleep(Duration::from_millis(5)).await;
+                }
+            });
+            let t0 = std::time::Instant::now();
+            let mut files_left = files_before;
+            while (t0.elapsed().as_millis() as u64) < bound_ms.saturating_sub(5000) {
+                files_left = std::fs::read_dir(&evdir).map(|d| d.filter_map(|e| e.ok()).filter(|e| e.file_name().to_string_lossy().ends_with(".json")).count()).unwrap_or(0);
+                if files_left == 0 || task.is_finished() {
+                    break;
+                }
+                tokio::time::sleep(Duration::from_millis(20)).await;
+            }
+            let posts = mock.seen.lock().unwrap().iter().filter(|l| l.starts_with("POST")).count();
+            let reader_panicked = task.is_finished();
+            shared.cancel_cancellation_token();
+            tokio::time::sleep(Duration::from_millis(30)).await;
+            task.abort();
+            hb.abort();
+            mock.handle.abort();
+            done.store(true, Ordering::SeqCst);
+            json!({"id": id, "op": op, "hung": false, "max_message_length": maxlen, "events_written": sent, "longest_queued": longest,
+                   "files_before": files_before, "files_left": files_left, "posts": posts, "reader_ended": reader_panicked,
+                   "heartbeats": beats.load(Ordering::SeqCst), "elapsed_ms": t0.elapsed().as_millis() as u64, "panics": take_panics()})
+        }
         "events" => {
             let evs = sync_events(&scratch.join("events"), PUSHED.load(Ordering::SeqCst)).await;
             let m: Vec<Value> = evs.iter().filter(|(o, _)| o.starts_with("c13-")).map(|(o, m)| json!([o[4..], b64e(m.as_bytes())])).collect();
